@@ -66,6 +66,10 @@ CHECKS = {
                 technique="runtime monitoring of operation histories: real objects and a value model executed in lock-step; settings-snapshot hook checked on every live object after every operation, wire probes (headers, redirect bound, header limit, proxy dialled, connector arguments) on every send; objects then spread over concurrently operating threads",
                 text="Random sequences of session/builder operations with colliding values are run against a by-value model; after each operation every live object's snapshot must equal its model, and each send is observed through one wire probe; a second generator hands clones of all sessions to 2..8 barrier-started threads that keep mutating and sending while the parent verifies that the originals never change.",
                 note="Root certificates are only counted. Thread interleavings are those the OS produces; no data race is possible in safe Rust here, the concurrency part checks logical isolation of Arc copy-on-write."),
+    "C12": dict(cat="fault_enumeration", design="DESIGN.md §3 C12",
+                technique="runtime monitoring with fault injection on the proxy connection: scripted CONNECT replies (every status, every cut offset, garbage, huge/endless bodies) and a live TLS server spliced in behind 2xx replies; event-order oracle over the transport trace (each write tagged with the reply bytes consumed), marker search in the raw proxy-side bytes, decode of the tunnelled request",
+                text="Every reply status 100..599, every truncation offset of three reply heads, refusal bodies around the 10 KiB cap and endless, garbage replies, and a configuration matrix of origin/proxy URL shapes are run; the CONNECT line, Proxy-Authorization, the absence of any write before a complete 2xx head or after a refusal, the ConnectError contents, the absence of caller data in clear on the proxy side, the absence of proxy credentials inside the tunnel and the verification of the tunnelled TLS session against the origin's name (certificate valid only for the proxy's name must be rejected) are checked.",
+                note="Runs with the native-tls backend in this registration; the rustls flavour is exercised by C14's thorough tier. IPv6 origins run with certificate checks waived (see DESIGN.md §8)."),
 }
 
 NOT_APPLICABLE = {}
